@@ -21,9 +21,13 @@ TraceInit == cur = 1 /\ TLCSet(1, <<>>) /\ TLCSet(2, 0) /\ TLCSet(3, 0) /\ TLCSe
 \* ---------------------------------------------------------------- judgements
 \* an evaluator that did not return ("hang", isolated mode of the harness) or was not run after one that hung
 Abn(cs, g, ev, res) == IF res.m = "not-run" THEN <<>>
-                       ELSE << [i |-> cur, as |-> g.as, ev |-> ev, kind |-> IF res.m = "hang" THEN "hang" ELSE "panic",
+                       ELSE << [sf |-> SF(cs, g), i |-> cur, as |-> g.as, ev |-> ev, kind |-> IF res.m = "hang" THEN "hang" ELSE "panic",
                                 loc |-> Locus(cs.path, cs.data, cs.fx), m |-> res.m] >>
-Dev(cs, g, ev, kind, msg) == [i |-> cur, as |-> g.as, ev |-> ev, kind |-> kind, loc |-> Locus(cs.path, cs.data, cs.fx), m |-> msg]
+\* which struct-less fragment kinds the path applies to struct-shaped objects (only evaluated for struct representations)
+OnStruct(g) == \E q \in 1..Len(g.as) : g.as[q] \in {"struct/built", "pstruct/built", "estruct/built", "pestruct/built"}
+NoSF == [wild |-> FALSE, desc |-> FALSE, filter |-> FALSE]
+SF(cs, g) == IF OnStruct(g) THEN StructFrags(cs.path, cs.data) ELSE NoSF
+Dev(cs, g, ev, kind, msg) == [sf |-> SF(cs, g), i |-> cur, as |-> g.as, ev |-> ev, kind |-> kind, loc |-> Locus(cs.path, cs.data, cs.fx), m |-> msg]
 
 \* the recorded last-position choice of every slice fragment (see JsonPath!ProbeOK)
 ProbeBad(cs) == {<<p, n>> \in (1..Len(cs.path)) \X (0..MaxArrLen(cs.data)) :
@@ -31,7 +35,7 @@ ProbeBad(cs) == {<<p, n>> \in (1..Len(cs.path)) \X (0..MaxArrLen(cs.data)) :
 ProbeDevs(cs) == IF ProbeBad(cs) = {} THEN <<>>
                  ELSE LET pn == CHOOSE x \in ProbeBad(cs) : TRUE
                           f == cs.path[pn[1]] IN
-                      << [i |-> cur, as |-> <<"simple/probe">>, ev |-> "Get", kind |-> "wrong-selection", m |-> "",
+                      << [sf |-> NoSF, i |-> cur, as |-> <<"simple/probe">>, ev |-> "Get", kind |-> "wrong-selection", m |-> "",
                           loc |-> [frag |-> "slice", pos |-> "only", cont |-> "arr", pre |-> "single",
                                    bound |-> <<BCls(f.sa, f.s, pn[2]), BCls(f.ea, f.e, pn[2]), SCls(f),
                                                IF SliceStrict(f, pn[2]) THEN "strict" ELSE "open", "probe">>]] >>
@@ -81,7 +85,7 @@ LocateOK(cs, res, max, E) ==
 SESPath(cs) == [i \in 1..Len(cs.path) |-> IF cs.path[i].f = "slice" THEN WithOv(cs.path[i], StartEndStepIdx, MaxArrLen(cs.data))
                                           ELSE cs.path[i]]
 ESes(cs) == Locs(SESPath(cs), cs.data)
-DevImpl(cs, g, ev) == [i |-> cur, as |-> g.as, ev |-> ev, kind |-> "as-implemented", m |-> "",
+DevImpl(cs, g, ev) == [sf |-> NoSF, i |-> cur, as |-> g.as, ev |-> ev, kind |-> "as-implemented", m |-> "",
                        loc |-> [frag |-> "slice", pos |-> "startEndStep-reading", cont |-> "-", pre |-> "-", bound |-> <<"-">>]]
 LocateDev(cs, g, res, max, ev, E) ==
   IF res.p THEN Abn(cs, g, ev, res)
